@@ -2481,6 +2481,17 @@ impl<'a> Model<'a> {
         height: i32,
         value: &str,
     ) -> Result<(), String> {
+        // The whole range must be on the grid: otherwise we would write the anchor
+        // and then fail on the first cell of the range that does not exist
+        if width < 1
+            || height < 1
+            || !is_valid_row(row)
+            || !is_valid_column_number(column)
+            || !is_valid_row(row + height - 1)
+            || !is_valid_column_number(column + width - 1)
+        {
+            return Err("Incorrect row or column".to_string());
+        }
         self.prepare_cell_for_user_input(sheet, row, column)?;
         // If value starts with "'" then we force the style to be quote_prefix
         let style_index = self.get_cell_style_index(sheet, row, column)?;
